@@ -4,12 +4,15 @@ import GarbleVerif.Proofs.BitMain
 
 **Proved (core fragment, all widths, all inputs).** `Bit.bitExpr` / `Bit.bitStmts` / `Bit.bitStmt`
 (Model/BitSem.lean) follow `compile.rs` on Booleans and integers of every width — literals,
-variables, `!`, unary `-`, `+`, `-`, `*`, `/`, `%`, `<<`, `>>`, `<`, `>`, `<=`, `>=`, `==`, `!=`, `&`, `|`, `^` on Booleans, `&&`,
-`||`, `as` between all these types, `if`/`else` as expression and as statement, blocks, `let`,
-`let mut`, assignment to a variable — computing, for given inputs, the value every output wire
+variables, `!`, unary `-`, `+`, `-`, `*`, `/`, `%`, `<<`, `>>`, `<`, `>`, `<=`, `>=`, `==`, `!=`, `&`, `|`, `^` (Booleans and integers), `&&`,
+`||`, `as` between all these types, `if`/`else` as expression and as statement, `match` on a Boolean or
+integer with literal, range and binding patterns whose arms cover the type (a last arm that binds or
+ignores the value, or any set of arms the verified reference procedure of C08 finds exhaustive), blocks,
+`let`, `let mut`, assignment to a variable — computing, for given inputs, the value every output wire
 carries, the abstract state of the panic record and the wires of every variable in scope (the
-branches of an `if` and the right operand of `&&` / `||` are compiled unconditionally and every
-variable is merged afterwards, `mux_envs`). The operators are the bit-list functions of
+branches of an `if`, every arm of a `match` and the right operand of `&&` / `||` are compiled
+unconditionally and every variable is merged afterwards, `mux_envs`; an arm is selected by
+`!has_prev_match && is_match`, a range pattern by two comparator circuits). The operators are the bit-list functions of
 Model/Arith.lean (tied to `CircuitBuilder` by C03/C04, proved exact in Proofs/Arith*.lean).
 
 `C01_core`: for every program body of the fragment, every environment of well-typed values and
@@ -20,9 +23,8 @@ operation: C02 at program level for the fragment). Both directions together: the
 iff the source execution fails. `C01_core_defined`: the source semantics are never stuck on a
 program of the fragment (type soundness).
 
-**Explored (whole language).** Everything outside the fragment (bitwise operators on integers,
-multiplication by a literal where the compiler adds repeatedly, aggregates, `match`, loops, functions, assignment through
-accessors) is compared on generated programs on every run: circuit output against `Src.evalStmts`,
+**Explored (whole language).** Everything outside the fragment (multiplication by a negative literal, aggregates, `match` on
+aggregates and enums, loops, functions, assignment through accessors) is compared on generated programs on every run: circuit output against `Src.evalStmts`,
 and — for programs of the fragment — against `Bit.bitStmts` as well, which ties the model of
 this theorem to the code.
 -/
